@@ -12,8 +12,8 @@ use crate::zodm;
 use serde_json::{json, Value};
 
 pub const FIELD_FORMS: &[&str] =
-    &["none", "rename", "skip", "skip_serializing_if", "default", "default_path", "rename_default", "default_rename", "two_attrs", "validate_doc_rename", "ssi_path_default", "skip_default", "rename_then_default_attr", "rename_then_ssi_attr", "three_attrs_rename_mid", "rename_raw_literal"];
-pub const VARIANT_FORMS: &[&str] = &["none", "rename", "doc_rename", "two_attrs", "rename_then_alias_attr", "rename_raw_literal", "skip"];
+    &["none", "rename", "skip", "skip_serializing_if", "default", "default_path", "rename_default", "default_rename", "two_attrs", "validate_doc_rename", "ssi_path_default", "skip_default", "rename_then_default_attr", "rename_then_ssi_attr", "three_attrs_rename_mid", "rename_raw_literal", "skip_then_default_attr"];
+pub const VARIANT_FORMS: &[&str] = &["none", "rename", "doc_rename", "two_attrs", "rename_then_alias_attr", "rename_raw_literal", "skip", "skip_then_alias_attr"];
 
 pub const RENAMES: &[&str] = &[
     "userId", "user-id", "USER-ID", "with space", "rename_all", "skip", "quo\"te", "back\\slash", "ünï-cödé", "a.b", "123abc", "type", "rename", "skip_me", "x", "dollar$", "emoji😀",
@@ -123,6 +123,21 @@ pub fn make_item(ident: &str, form: &str, rename: &str, idx: usize) -> ItemM {
         "three_attrs_rename_mid" => (format!("#[serde(default)]\n    #[serde(rename = {})]\n    #[serde(alias = \"other_name\")]", lit), Some(rename), false, false),
         "rename_then_alias_attr" => (format!("#[serde(rename = {})]\n    #[serde(alias = \"old_name\")]", lit), Some(rename), false, false),
         "doc_rename" => (format!("/// the skip of rename\n    #[serde(rename = {})]", lit), Some(rename), false, false),
+        // skip in its own attribute, followed by another serde attribute of the same item
+        "skip_then_default_attr" => {
+            if idx % 2 == 0 {
+                ("#[serde(skip)]\n    #[serde(default)]".into(), None, true, false)
+            } else {
+                ("#[serde(default)]".into(), None, false, false)
+            }
+        }
+        "skip_then_alias_attr" => {
+            if idx % 2 == 0 {
+                ("#[serde(skip)]\n    #[serde(alias = \"old_name\")]".into(), None, true, false)
+            } else {
+                ("#[serde(alias = \"old_name\")]".into(), None, false, false)
+            }
+        }
         // the same string as a raw literal (r#"..."#): escapes are not processed inside one, so the
         // value is the text between the delimiters
         "rename_raw_literal" => {
@@ -383,7 +398,7 @@ pub fn grid_types(rule: Option<&str>, is_enum: bool) -> Vec<TypeM> {
     let mut out = vec![];
     for (fi, form) in forms.iter().enumerate() {
         for (i, id) in idents.iter().enumerate() {
-            let mut items = vec![make_item(id, form, RENAMES[(i + fi * 5) % RENAMES.len()], if *form == "skip" { 0 } else { 1 })];
+            let mut items = vec![make_item(id, form, RENAMES[(i + fi * 5) % RENAMES.len()], if form.starts_with("skip") && *form != "skip_serializing_if" && *form != "skip_default" { 0 } else { 1 })];
             items.push(make_item(if is_enum { "Keep" } else { "keep" }, "none", "", 1));
             out.push(TypeM { name: format!("{}{}x{}", if is_enum { "En" } else { "St" }, fi, i), is_enum, rule: rule.map(String::from), items, container: CONTAINER_FORMS[(fi + i) % CONTAINER_FORMS.len()].to_string() });
         }
@@ -442,7 +457,7 @@ fn random_types(t: &mut Tape) -> (Vec<TypeM>, &'static str) {
 pub fn run(ctx: &Ctx) {
     let validated = serde_names::validate();
     ctx.note("oracle_fixtures_validated", json!(validated));
-    ctx.set_rule("full grid: container rename_all in {none + 8 rules} x {struct field, enum variant} x item-level attribute forms (16 for fields, 7 for variants incl. skip, one of them the rename as a raw string literal) x 14 identifier shapes x both modes, field visibility rotating over pub / private / pub(crate), the container attributes written in 7 rotating spellings (rename_all alone / before or after another key / in its own attribute before or after another one / beside a container-level rename / under a doc comment naming another rule), renames drawn from a pool of 20 strings; plus random types with random identifiers and random rename strings. evaluation = one item (field/variant) whose wire name is compared; non-trivial = container rule present or item-level attribute present; distinct by (rule, kind, form, identifier, rename, mode)");
+    ctx.set_rule("full grid: container rename_all in {none + 8 rules} x {struct field, enum variant} x item-level attribute forms (17 for fields, 8 for variants incl. skip alone and skip followed by another attribute, one of them the rename as a raw string literal) x 14 identifier shapes x both modes, field visibility rotating over pub / private / pub(crate), the container attributes written in 7 rotating spellings (rename_all alone / before or after another key / in its own attribute before or after another one / beside a container-level rename / under a doc comment naming another rule), renames drawn from a pool of 20 strings; plus random types with random identifiers and random rename strings. evaluation = one item (field/variant) whose wire name is compared; non-trivial = container rule present or item-level attribute present; distinct by (rule, kind, form, identifier, rename, mode)");
     ctx.set_exhaustive(false);
     ctx.assume("expected names come from a port of serde_derive's case rules, validated at start-up against types compiled with the real serde_derive");
     ctx.assume("default_field_case stays at its default (snake_case = identity)");
